@@ -38,6 +38,12 @@ def tree_hash(repo):
             h.update(f.read())
     except OSError:
         pass
+    for extra in ('normalize.py', os.path.join('tables', 'vocabulary.json')):
+        try:
+            with open(os.path.join(VERIF, 'tsa', extra), 'rb') as f:
+                h.update(f.read())
+        except OSError:
+            h.update(b'<none>')
     paths = []
     for top in ('src', 'include', 'tests', 'CMakeLists.txt', 'CMakeModules', 'externals/CMakeLists.txt'):
         p = os.path.join(repo, top)
@@ -179,6 +185,8 @@ def build(repo, verbose=True):
                 key = v['qname'] + ('@' + v.get('func', '') if v.get('staticlocal') else '')
                 merged['vars'].setdefault(key, v)
         _uniquify_locals(merged['functions'])
+        from . import normalize
+        normalize.normalize(merged)
         merged['extract_wall_s'] = round(time.time() - t0, 2)
         return merged
     finally:
